@@ -58,6 +58,7 @@ func checkC15(c *Ctx) {
 	// (3) endings clear
 	c.checkEndingsClear(clearers)
 	c.checkEndingOrigin(clearers)
+	c.checkAcceptRecordedAfterPublished()
 	c.checkIceBehindEnabled()
 	// (4) re-entrancy
 	c.checkSlotReentrancy(slot)
